@@ -1,6 +1,6 @@
 (* TypecheckRun.v — run command of the typechecker model (drivers only; no theorem depends on it).
      (typecheck <strict|permissive> <schema> <reqenv> <expr>)
-        -> (res <lits_ok> (success <ty>) | (irrelevant) | (fail))   |  unmodelled  |  bad_input
+        -> (res <lits_ok> (success <ty>) | (irrelevant) | (fail) <annotated tree>)   |  unmodelled  |  bad_input
    <schema> as in ConformRun.d_schema, <reqenv> as in TExpr.d_reqenv, <expr> as in Codec.d_expr. *)
 From Coq Require Import String.
 From Cedar Require Export Typecheck TExprRun.
@@ -35,6 +35,58 @@ Definition d_vmode (s : sexp) : option vmode :=
   | _ => None
   end.
 
+(* the type the model assigns to EVERY sub-expression that the typechecker visits, in the shape of the
+   expression: (kind <ty|none> (children...)); a child the typechecker does not visit (skipped operand of a
+   short-circuited && / ||, untaken branch of an `if` with a singleton-typed test) is the symbol `skipped`.
+   Children are typed under the capabilities `tc` types them under. *)
+Section Annot.
+  Variable m : vmode.
+  Variable sch : schema.
+  Variable env : reqenv.
+  Definition oty_sx (r : option (ty * caps)) : sexp := match r with Some (t, _) => e_ty t | None => SY "none" end.
+  Definition skipped : sexp := SY "skipped".
+  Definition node (k : string) (cs : caps) (e : expr) (children : list sexp) : sexp :=
+    SL [SY k; oty_sx (tc m sch env cs e); SL children].
+  Fixpoint annot (cs : caps) (e : expr) {struct e} : sexp :=
+    match e with
+    | Lit _ => node "lit" cs e []
+    | Var _ => node "var" cs e []
+    | Slot _ => node "slot" cs e []
+    | Unknown _ _ => node "unknown" cs e []
+    | If c x y =>
+        node "if" cs e
+          (match expect (tc m sch env cs c) [TBool BAny] with
+           | Some (TBool BTrue, cc) => [annot cs c; annot (caps_union cs cc) x; skipped]
+           | Some (TBool BFalse, _) => [annot cs c; skipped; annot cs y]
+           | Some (_, cc) => [annot cs c; annot (caps_union cs cc) x; annot cs y]
+           | None => [annot cs c; skipped; skipped]
+           end)
+    | And a b =>
+        node "and" cs e
+          (match expect (tc m sch env cs a) [TBool BAny] with
+           | Some (TBool BFalse, _) => [annot cs a; skipped]
+           | Some (_, ca) => [annot cs a; annot (caps_union cs ca) b]
+           | None => [annot cs a; skipped]
+           end)
+    | Or a b =>
+        node "or" cs e
+          (match expect (tc m sch env cs a) [TBool BAny] with
+           | Some (TBool BTrue, _) => [annot cs a; skipped]
+           | Some (_, _) => [annot cs a; annot cs b]
+           | None => [annot cs a; skipped]
+           end)
+    | UnApp _ a => node "unop" cs e [annot cs a]
+    | BinApp _ a b => node "binop" cs e [annot cs a; annot cs b]
+    | ExtCall _ args => node "ext" cs e (map (annot cs) args)
+    | GetAttr x _ => node "getattr" cs e [annot cs x]
+    | HasAttr x _ => node "hasattr" cs e [annot cs x]
+    | Like x _ => node "like" cs e [annot cs x]
+    | Is x _ => node "is" cs e [annot cs x]
+    | SetE items => node "set" cs e (map (annot cs) items)
+    | RecordE items => node "record" cs e (map (fun kv => annot cs (snd kv)) items)
+    end.
+End Annot.
+
 Definition run_typecheck (cmd : string) (args : list sexp) : option sexp :=
   if sym_eqb cmd "typecheck" then
     Some (match args with
@@ -47,7 +99,8 @@ Definition run_typecheck (cmd : string) (args : list sexp) : option sexp :=
                         | EnvSuccess t => SL [SY "success"; e_ty t]
                         | EnvIrrelevant => SL [SY "irrelevant"]
                         | EnvFail => SL [SY "fail"]
-                        end]
+                        end;
+                        annot m sch env [] e]
                   else SY "unmodelled"
               | _, _, _, _ => bad_input
               end
